@@ -832,11 +832,48 @@ def class_view(repo: Repo, fi: FuncInfo, concrete, allow=None, max_depth: int = 
                 setattr(s, fld, new_root)
             return pre
 
+        def _split(self, ctx, s, stack, depth=0):  # noqa: ANN001
+            """`x = a if c else b` with a helper call in a branch  ->  `if c: x = a  else: x = b` (the branches are not
+            evaluated unconditionally, so the calls cannot be named in front of the statement)."""
+            from core.inline_stmt import _recopy
+
+            v = getattr(s, "value", None)
+            if depth <= 3 and isinstance(v, ast.BoolOp) and len(v.values) > 1 and any(self._target(ctx, x, stack) is not None for br in v.values[1:] for x in ast.walk(br)):
+                # `x = a and b`  ->  `x = a; if x: x = b`      `x = a or b`  ->  `x = a; if not x: x = b`
+                tgt = s.targets[0] if isinstance(s, ast.Assign) and len(s.targets) == 1 else s.target if isinstance(s, ast.AnnAssign) else None
+                if isinstance(tgt, ast.Name):
+                    first = _recopy(s)
+                    first.value = v.values[0]
+                    rest = _recopy(s)
+                    rest.value = v.values[1] if len(v.values) == 2 else ast.copy_location(ast.BoolOp(op=v.op, values=v.values[1:]), v)
+                    test: ast.expr = ast.copy_location(ast.Name(id=tgt.id, ctx=ast.Load()), v)
+                    if isinstance(v.op, ast.Or):
+                        test = ast.copy_location(ast.UnaryOp(op=ast.Not(), operand=test), v)
+                    cond = ast.copy_location(ast.If(test=test, body=self._split(ctx, rest, stack, depth + 1), orelse=[]), s)
+                    if hasattr(s, "_src"):
+                        cond._src = s._src  # type: ignore[attr-defined]
+                    return [*self._split(ctx, first, stack, depth + 1), cond]
+            if depth > 3 or not isinstance(s, (ast.Assign, ast.AnnAssign, ast.Return, ast.Expr)) or not isinstance(v, ast.IfExp):
+                return [s]
+            if not any(self._target(ctx, x, stack) is not None for br in (v.body, v.orelse) for x in ast.walk(br)):
+                return [s]
+
+            def arm(e):  # noqa: ANN001
+                st = _recopy(s)
+                st.value = e
+                return self._split(ctx, st, stack, depth + 1)
+
+            new = ast.copy_location(ast.If(test=v.test, body=arm(v.body), orelse=arm(v.orelse)), s)
+            if hasattr(s, "_src"):
+                new._src = s._src  # type: ignore[attr-defined]
+            return [new]
+
         def _block(self, ctx, stmts, taken, origin, stack):  # noqa: ANN001
             out = []
-            for s in stmts:
-                out += self._hoist(ctx, s, taken, stack)
-                out.append(s)
+            for s0 in stmts:
+                for s in self._split(ctx, s0, stack):
+                    out += self._hoist(ctx, s, taken, stack)
+                    out.append(s)
             done = Inliner._block(self, ctx, out, taken, origin, stack)
             # single-expression helpers substituted by the expression inliner may have brought further nested helper calls
             again = []
